@@ -448,16 +448,60 @@ def eval_cases(cases):
     return result
 
 
-def observe(arch, nodes, edges):
-    """The architecture's own modules and import relation (falls back to the ground truth
-    when the internals are not reachable)."""
+def partial_match_converter():
+    """The library's converter of partial names / glob patterns to regexes; when the helper has moved, the documented
+    translation (text compared in full, a leading * any prefix, a trailing * any suffix)."""
     try:
-        nx = arch._graph._graph
-        ns = list(arch.modules)
-        es = [(a, b) for a, b, d in nx.edges(data=True) if not d.get("inherits")]
-        return ns, sorted(es)
-    except AttributeError:
-        return list(nodes), list(edges)
+        from pytestarch.utils.partial_match_to_regex_converter import convert_partial_match_to_regex
+        return convert_partial_match_to_regex
+    except Exception:  # noqa: BLE001
+        import re
+
+        def documented(p: str) -> str:
+            st, en = p.startswith("*"), p.endswith("*")
+            text = p[(1 if st else 0):(len(p) - 1 if en else len(p))]
+            return (".*" if st else "") + re.escape(text) + (".*" if en else "$")
+        return documented
+
+
+class HarnessError(RuntimeError):
+    """The harness cannot reach something it needs inside the library (an internal moved): a broken correspondence, never a verdict."""
+
+
+def nx_of(arch):
+    """The networkx graph an architecture object holds, found by walking its attributes (private names may change)."""
+    import networkx
+    seen, frontier = set(), [arch]
+    for _ in range(5):
+        nxt = []
+        for o in frontier:
+            if isinstance(o, networkx.Graph):
+                return o
+            if id(o) in seen or isinstance(o, (str, bytes, int, float, bool, type(None))):
+                continue
+            seen.add(id(o))
+            d = getattr(o, "__dict__", None)
+            if isinstance(d, dict):
+                nxt.extend(d.values())
+            for sl in getattr(type(o), "__slots__", ()) or ():
+                if hasattr(o, sl):
+                    nxt.append(getattr(o, sl))
+        frontier = nxt
+    raise HarnessError("no networkx graph found inside the architecture object (internal representation changed?)")
+
+
+def is_hierarchy_pair(a: str, b: str) -> bool:
+    """(package, direct sub module): the graph holds one edge per node pair, and for such a pair it is the hierarchy edge
+    (an import of a direct sub module is absorbed by it)."""
+    return b.startswith(a + ".") and "." not in b[len(a) + 1:]
+
+
+def observe(arch, nodes, edges):
+    """The architecture's own modules and import relation."""
+    nx = nx_of(arch)
+    ns = list(arch.modules)
+    es = [(a, b) for a, b in nx.edges() if not is_hierarchy_pair(a, b)]
+    return ns, sorted(es)
 
 
 def same_verdict(io, mo) -> bool:
